@@ -87,6 +87,8 @@ type scase struct {
 	FlushMs int `json:"flush_ms,omitempty"`
 	// Utf8: a case of the section utf8 (utf8.go) instead of Ops
 	Utf8 *utf8Case `json:"utf8,omitempty"`
+	// Conc: a case of the sections busystop / ack (conc.go) instead of Ops; they use process-wide hooks and run one at a time
+	Conc *concCase `json:"conc,omitempty"`
 }
 
 // ---------------------------------------------------------------------------------------------
@@ -2226,7 +2228,11 @@ func runCases(secName string, sect *vh.Section, cases []scase, seed *vh.Rng, wor
 				b, _ := json.Marshal(c)
 				key = string(b)
 			}
-			if c.Utf8 != nil {
+			if c.Conc != nil {
+				b, _ := json.Marshal(c)
+				key = string(b)
+				runConc(c, secName, sect)
+			} else if c.Utf8 != nil {
 				b, _ := json.Marshal(c)
 				key = string(b)
 				runUtf8(c, secName, sect)
@@ -2248,7 +2254,7 @@ func corpusCases() []scase {
 			Section string `json:"section"`
 			Input   scase  `json:"input"`
 		}
-		if vh.ReadJSON(f, &rp) == nil && (len(rp.Input.Ops) > 0 || rp.Input.Utf8 != nil) {
+		if vh.ReadJSON(f, &rp) == nil && (len(rp.Input.Ops) > 0 || rp.Input.Utf8 != nil || rp.Input.Conc != nil) {
 			n := 1
 			if rp.Input.Rounds > 1 {
 				n = rp.Input.Rounds
@@ -2489,6 +2495,10 @@ func main() {
 	res.Done(cs)
 	sectionUnit(rng.Fork("unit"))
 	sectionRace(rng.Fork("race"))
+	ks := res.Section("conc", "system-correspondence",
+		"schedule replays with hooks, one at a time: busystop — a pipe worker parked inside its copy (records in the destination journal, position not saved) when the graceful stop begins; after the restart every source event is in the pipe's partition exactly once; ack — 3..7 concurrent CREATE (then DELETE) PIPE while one registry save is parked behind its snapshot: the registry file on disk at each acknowledgement holds (no longer holds) the pipe")
+	runCases("conc", ks, concCases(rng.Fork("conc")), rng.Fork("conc"), 1)
+	res.Done(ks)
 
 	ng, nc := 30, 44
 	if args.Thorough {
